@@ -53,14 +53,20 @@ def gen_history(rng, cfg, n_leaves, T, fault_rate, fault_kinds=None,
   pts = set(ds_gen.schedule_points(cfg, T))
   ops = []
   have_ckpt = False
+  # a persistent gradient scale for the whole history (a model whose gradients
+  # are uniformly small or large), on top of the per-tick jumps
+  base = 10.0 ** rng.randrange(-6, 7) if rng.random() < 0.25 else 1.0
   for t in range(T):
     fault = None
     if fault_rate > 0:
       pr = fault_rate * (2.0 if t in pts else 0.5)
       if rng.random() < pr:
         fault = ds_gen.gen_fault(rng, n_leaves, fault_kinds)
-    ops.append(ds_gen.gen_step(rng, n_leaves, fault=fault,
-                               scale_jump=rng.random() < scale_jumps))
+    op = ds_gen.gen_step(rng, n_leaves, fault=fault,
+                         scale_jump=rng.random() < scale_jumps)
+    if base != 1.0:
+      op['scale'] = float(op.get('scale', 1.0)) * base
+    ops.append(op)
     r = rng.random()
     if restores and r < 0.12:
       ops.append({'op': 'CHECKPOINT', 'sync': rng.random() < 0.8})
